@@ -29,6 +29,7 @@ pub fn c16_plan() -> Plan {
         quick_histories: 400,
         thorough_histories: 40_000,
         s5: None,
+        enumerate_session_end: None,
     }
 }
 
@@ -59,5 +60,6 @@ pub fn c19_plan() -> Plan {
         quick_histories: 400,
         thorough_histories: 40_000,
         s5: None,
+        enumerate_session_end: None,
     }
 }
